@@ -14,6 +14,7 @@ package tlspaireng
 import (
 	gotls "crypto/tls"
 	"fmt"
+	"io"
 	"strings"
 	"time"
 
@@ -22,12 +23,14 @@ import (
 	"verifharness/internal/core"
 	"verifharness/internal/netx"
 	"verifharness/internal/tlspair"
+	"verifharness/internal/tlsscript"
 )
 
 func init() {
 	core.RegisterMeta("C27", core.Meta{
 		Rule: "enumerated scenario table: server-credential scenarios (trusted, untrusted root, expired / not-yet-valid leaf, expired or missing intermediate, wrong name, SAN/IP names, Config.Time shifted both ways, flipped certificate signature, substituted key, flipped ServerKeyExchange/CertificateVerify signature, wire flips of ServerKeyExchange / Certificate, InsecureSkipVerify) " +
 			"x TLS1.0-1.3 x {RSA, ECDHE_RSA, ECDHE_ECDSA, DHE_RSA, TLS1.3} x key kinds; client-auth table: 5 ClientAuth modes x client credentials (none, trusted, untrusted, expired, wrong EKU, flipped certificate signature, substituted key, flipped CertificateVerify, wire flip) x versions x client key kinds; " +
+			"scripted-client family (internal/tlsscript, TLS 1.0-1.2, RSA and ECDHE): conforming and non-conforming client flights (Certificate omitted / empty / duplicated / after the ClientKeyExchange / unrequested, CertificateVerify omitted / corrupted / made with another key) x 5 ClientAuth modes x credential trusted/untrusted/none against the zcrypto server; " +
 			"server-name-forms family: ServerName as DNS name / mixed case / trailing dot / IPv4 / IPv6 / bracketed / expanded / IPv4-mapped / zoned literal x trusted leaves whose SANs cover it by DNS, by IP, cover only other names, DNS only, CN only (expectation from the C09 matching rules; open readings recorded); " +
 			"resumption family: connection 1 (config X, possibly InsecureSkipVerify, server trusted/untrusted/expired/misnamed/incomplete chain) fills a shared ClientSessionCache, connection 2 (Y = X.Clone() with verification on, optionally Config.Time past NotAfter or another ServerName) must not complete against a server that does not verify for Y, resumed or not; " +
 			"peers zcrypto<->zcrypto, lying/honest Go server against the zcrypto client, lying/honest Go client against the zcrypto server. non-trivial = a row with an asserted expectation whose run reached a decision (verifying side returned); distinct by row description",
@@ -254,6 +257,24 @@ func c27Table(c *core.Ctx) []c27Row {
 				}
 			}
 		}
+		// scripted (possibly non-conforming) TLS <= 1.2 client against the zcrypto server
+		for _, cell := range []c27Cell{
+			{v10, "rsa", 0x002f, tlspair.RSA2048}, {v10, "ecdhe_rsa", 0xc013, tlspair.RSA2048}, {v10, "ecdhe_ecdsa", 0xc009, tlspair.P256},
+			{v11, "rsa", 0x002f, tlspair.RSA2048}, {v11, "ecdhe_rsa", 0xc013, tlspair.RSA2048}, {v11, "ecdhe_ecdsa", 0xc009, tlspair.P256},
+			{v12, "rsa", 0x002f, tlspair.RSA2048}, {v12, "ecdhe_rsa", 0xc02f, tlspair.RSA2048}, {v12, "ecdhe_ecdsa", 0xc02b, tlspair.P256},
+			{v12, "rsa", 0x009c, tlspair.RSA2048}, {v12, "ecdhe_ecdsa", 0xc009, tlspair.P256},
+		} {
+			for _, mode := range clientAuthModes {
+				for _, beh := range scriptBehaviours {
+					for _, cred := range []string{"trusted", "untrusted", "none"} {
+						if expectScripted(mode, beh, cred) == "skip" {
+							continue
+						}
+						add(c27Row{Peer: "sz", Vers: cell.vers, KX: cell.kx, Suite: cell.suite, Kind: cell.kind, Scenario: "scripted_client", Mode: mode, Cred: cred, CKind: beh})
+					}
+				}
+			}
+		}
 		// server name forms x SAN coverage (all chains trusted: only the name decides)
 		for _, cell := range []c27Cell{
 			{v12, "ecdhe_ecdsa", 0xc02b, tlspair.P256}, {v13, "tls13", 0x1301, tlspair.P256}, {v10, "ecdhe_ecdsa", 0xc009, tlspair.P256},
@@ -314,6 +335,198 @@ func clientLeaf(cred, kind string) *tlspair.Leaf {
 		return e.BadSigClient[kind]
 	}
 	return nil
+}
+
+// ---- scripted client ---------------------------------------------------------
+
+var scriptBehaviours = []string{"conforming", "OmitCertificate", "EmptyCertificate", "OmitCertificateVerify", "BadCertificateVerify",
+	"VerifyWithOtherKey", "CertificateAfterCKX", "DuplicateCertificate", "SendCertificateUnrequested"}
+
+// expectScripted: outcome at the server. "ok" | "fail" | "" (the statement does not decide: counted) | "skip".
+// A client "proves possession" when it sends its chain and a correct CertificateVerify made with the chain's key.
+func expectScripted(mode, beh, cred string) string {
+	needsCred := beh != "conforming" && beh != "OmitCertificate" && beh != "EmptyCertificate"
+	if needsCred && cred == "none" {
+		return "skip"
+	}
+	if (beh == "OmitCertificate" || beh == "EmptyCertificate") && cred != "none" {
+		return "skip" // the credential is not used by these scripts
+	}
+	noProof := cred == "none" || beh == "OmitCertificate" || beh == "EmptyCertificate" || beh == "OmitCertificateVerify" ||
+		beh == "BadCertificateVerify" || beh == "VerifyWithOtherKey"
+	deviation := beh != "conforming" && beh != "EmptyCertificate"
+	switch mode {
+	case "NoClientCert":
+		switch beh {
+		case "conforming":
+			if cred == "none" {
+				return "ok"
+			}
+			return "skip" // nothing is requested, nothing is sent: same run as with no credential
+		case "SendCertificateUnrequested":
+			return ""
+		}
+		return "skip" // the other flags only act on a CertificateRequest
+	case "RequestClientCert":
+		if !deviation {
+			return "ok"
+		}
+		return ""
+	case "RequireAnyClientCert":
+		if noProof {
+			return "fail"
+		}
+		if !deviation {
+			return "ok"
+		}
+		return ""
+	case "VerifyClientCertIfGiven":
+		if !deviation {
+			if cred == "untrusted" {
+				return "fail"
+			}
+			return "ok"
+		}
+		return ""
+	case "RequireAndVerifyClientCert":
+		if noProof || cred == "untrusted" {
+			return "fail"
+		}
+		if !deviation {
+			return "ok"
+		}
+		return ""
+	}
+	return "skip"
+}
+
+func (row c27Row) runScripted(c *core.Ctx) {
+	p, e := tlspair.Get(), getExtra()
+	now := tlspair.Now
+	mode, beh, cred := row.Mode, row.CKind, row.Cred
+	expect := expectScripted(mode, beh, cred)
+	if expect == "skip" {
+		return
+	}
+	zs := &ztls.Config{Time: func() time.Time { return now }, Rand: tlspair.NewDetRand(row.Seed ^ 0xabcdef), MinVersion: row.Vers, MaxVersion: row.Vers,
+		Certificates: []ztls.Certificate{p.Server[row.Kind].Z()}, CipherSuites: []uint16{row.Suite}, SessionTicketsDisabled: true,
+		ClientAuth: authMode(mode), ClientCAs: p.ZRoots()}
+	sc := &tlsscript.ClientScript{Version: row.Vers, Suite: row.Suite, Curve: 23, SNI: tlspair.ServerName, AppData: []byte("ping"), ReadReply: 4, Seed: row.Seed, Timeout: 20 * time.Second}
+	switch cred {
+	case "trusted":
+		sc.Chain, sc.Key = p.Client[tlspair.P256].Chain, p.Client[tlspair.P256].Key
+	case "untrusted":
+		sc.Chain, sc.Key = e.UntrustedClient[tlspair.P256].Chain, e.UntrustedClient[tlspair.P256].Key
+	}
+	switch beh {
+	case "OmitCertificate":
+		sc.OmitCertificate = true
+	case "EmptyCertificate":
+		sc.EmptyCertificate = true
+	case "OmitCertificateVerify":
+		sc.OmitCertificateVerify = true
+	case "BadCertificateVerify":
+		sc.BadCertificateVerify = true
+	case "VerifyWithOtherKey":
+		sc.VerifyKey = tlspair.SecondSigner(tlspair.P256)
+	case "CertificateAfterCKX":
+		sc.CertificateAfterCKX = true
+	case "DuplicateCertificate":
+		sc.DuplicateCertificate = true
+	case "SendCertificateUnrequested":
+		sc.SendCertificateUnrequested = true
+	}
+	a, b, _ := netx.Pipe(netx.Options{}, netx.Options{})
+	srv := ztls.Server(b, zs)
+	b.SetDeadline(time.Now().Add(30 * time.Second)) // watchdog only
+	type srvOut struct {
+		err      error
+		pi       *core.PanicInfo
+		complete bool
+		npeer    int
+		echoed   bool
+	}
+	done := make(chan srvOut, 1)
+	go func() {
+		var o srvOut
+		o.pi = core.Guard(func() {
+			o.err = srv.Handshake()
+			st := srv.ConnectionState()
+			o.complete, o.npeer = st.HandshakeComplete, len(st.PeerCertificates)
+			if o.err == nil {
+				buf := make([]byte, 4)
+				if _, err := io.ReadFull(srv, buf); err == nil && string(buf) == "ping" {
+					if _, err := srv.Write([]byte("pong")); err == nil {
+						o.echoed = true
+					}
+				}
+			}
+		})
+		b.Close()
+		done <- o
+	}()
+	res, serr := tlsscript.RunClient(a, sc)
+	a.Close()
+	var so srvOut
+	select {
+	case so = <-done:
+	case <-time.After(40 * time.Second):
+		noteWatchdog(c, "C27 "+row.ID)
+		return
+	}
+	c.Eval(1)
+	obs := map[string]any{"row": row, "expect": expect, "server_err": errStr(so.err), "server_complete": so.complete, "server_peer_certs": so.npeer, "server_echoed": so.echoed,
+		"script_err": errStr(serr)}
+	if res != nil {
+		obs["client_stage"], obs["client_sent"], obs["client_complete"], obs["client_alerts"], obs["client_app_data"] = res.Stage, fmt.Sprintf("%v", res.Sent), res.HandshakeComplete, fmt.Sprintf("%v", res.Alerts), string(res.AppDataReceived)
+	}
+	if so.pi != nil {
+		c.Violation(so.pi.Key, "server endpoint panicked: "+so.pi.Value+"\n"+so.pi.Stack, row.ID, obs)
+		return
+	}
+	label := "scripted_client:" + mode + ":" + beh + ":" + cred
+	cellKey := fmt.Sprintf("sz:%s:%s", vname(row.Vers), row.KX)
+	serverOK := so.err == nil && so.complete
+	outcome := "fail"
+	if serverOK {
+		outcome = "ok"
+	}
+	c.Count("outcome:"+label+":"+outcome, 1)
+	if mode != "NoClientCert" && res != nil && !res.CertificateRequested && res.Stage != "hello" && res.Stage != "server-flight" {
+		c.Violation("certificate_not_requested:"+mode, "the server's flight carried no CertificateRequest", row.ID, obs)
+		return
+	}
+	switch expect {
+	case "":
+		c.Count("recorded_only:"+label+":"+outcome, 1)
+		return
+	case "ok":
+		if serr != nil {
+			c.Violation("undecided:script_error:"+label+":"+cellKey, serr.Error(), row.ID, obs)
+			return
+		}
+		if !serverOK || res == nil || !res.HandshakeComplete || !so.echoed || string(res.AppDataReceived) != "pong" {
+			c.Violation(fmt.Sprintf("good_credentials_rejected:%s:%s:s=%s", label, cellKey, normErr(so.err)), "a conforming client with acceptable credentials must complete and exchange data", row.ID, obs)
+			return
+		}
+		wantPeer := mode != "NoClientCert" && cred != "none" && beh != "EmptyCertificate"
+		if (so.npeer > 0) != wantPeer {
+			c.Violation("client_certificate_visibility:"+mode, fmt.Sprintf("server sees %d peer certificates, credential %s", so.npeer, cred), row.ID, obs)
+			return
+		}
+	case "fail":
+		if serverOK || so.echoed || (res != nil && len(res.AppDataReceived) > 0) {
+			c.Violation(fmt.Sprintf("bad_credentials_accepted:%s:%s", label, cellKey),
+				fmt.Sprintf("a server with ClientAuth=%s completed (err=%v, complete=%v, peer certificates=%d, application data echoed=%v) although the client did not prove possession of an acceptable key (script %s, credential %s)", mode, so.err, so.complete, so.npeer, so.echoed, beh, cred), row.ID, obs)
+			return
+		}
+		if !localError(so.err) {
+			c.Violation("undecided:refusal_not_raised_by_detector:"+label+":"+cellKey, fmt.Sprintf("server error %v, script error %v", so.err, serr), row.ID, obs)
+			return
+		}
+	}
+	c.Nontrivial(row.sig())
+	c.Count("cell:"+cellKey, 1)
 }
 
 // ---- server name forms -------------------------------------------------------
@@ -689,6 +902,10 @@ func (row c27Row) runResume(c *core.Ctx) {
 func (row c27Row) run(c *core.Ctx) {
 	if row.Scenario == "resume_bypass" {
 		row.runResume(c)
+		return
+	}
+	if row.Scenario == "scripted_client" {
+		row.runScripted(c)
 		return
 	}
 	if row.Scenario == "name_form" {
